@@ -39,7 +39,7 @@ META = {
     ],
 }
 
-IGNORE_FILE = "gen/\n*.skip.lua\n"
+IGNORE_FILE = "gen/\n*.skip.lua\n*.gen.lua\n!keep.gen.lua\n"
 
 
 def toml_for(ov):
@@ -375,6 +375,10 @@ def ignore_cases():
     I.append(("ign:not-ignored-cwd", ["--respect-ignores", "--stdin-filepath", "a.lua"], False))
     I.append(("ign:no-respect-flag", ["--stdin-filepath", "gen/a.lua"], False))
     I.append(("ign:no-filepath", ["--respect-ignores"], False))
+    # gitignore negation: `*.gen.lua` then `!keep.gen.lua` re-includes the file
+    I.append(("ign:negated-reincluded", ["--respect-ignores", "--stdin-filepath", "src/keep.gen.lua"], False))
+    I.append(("ign:negated-reincluded-cwd", ["--respect-ignores", "--stdin-filepath", "keep.gen.lua"], False))
+    I.append(("ign:negated-sibling-still-ignored", ["--respect-ignores", "--stdin-filepath", "src/other.gen.lua"], True))
     return tree, I
 
 
